@@ -29,11 +29,14 @@ func c10Run(c *fw.Case, env *fw.Env) *fw.Obs {
 		o.Note = err.Error()
 		return o
 	}
-	forced := p.Force != ""
+	forced := p.Force == "global" || p.Force == "refspec"
 	class := p.Op
-	if forced {
+	switch {
+	case p.Force == "mixed":
+		class += "/mixed-force"
+	case forced:
 		class += "/forced"
-	} else {
+	default:
 		class += "/unforced"
 	}
 	if p.FF != "" {
@@ -86,7 +89,15 @@ func c10Run(c *fw.Case, env *fw.Env) *fw.Obs {
 		o.Ev("ref_moves", 1)
 		kind := name[:strings.IndexByte(name, '/')]
 		o.Set("ref_kinds_moved", kind)
-		if existed && !forced {
+		refForced := forced
+		if p.Force == "mixed" {
+			for i, pl := range w.plans {
+				if recvName(pl) == name && planForced(&p, i) {
+					refForced = true
+				}
+			}
+		}
+		if existed && !refForced {
 			if kind == "tags" {
 				o.Violate("tag-overwritten-without-force/"+class, "tag %s changed from %x to %x (%v)", name, ov, nv, args)
 				continue
@@ -116,7 +127,8 @@ func c10Run(c *fw.Case, env *fw.Env) *fw.Obs {
 	}
 	// 2. per plan: the expected disposition
 	if p.Op == "fetch" || p.Op == "push" {
-		for _, pl := range w.plans {
+		for i, pl := range w.plans {
+			forced := planForced(&p, i)
 			name := recvName(pl)
 			before, had := out.refsBefore.vals[name]
 			after := out.refsAfter.vals[name]
@@ -149,7 +161,7 @@ func c10Run(c *fw.Case, env *fw.Env) *fw.Obs {
 		}
 	}
 	// 3. pull = fetch + merge into the local branch
-	if p.Op == "pull" {
+	if p.Op == "pull" || p.Op == "merge" {
 		pl := w.plans[0]
 		name := "heads/" + pl.Name
 		before, had := out.refsBefore.vals[name]
@@ -169,6 +181,12 @@ func c10Run(c *fw.Case, env *fw.Env) *fw.Obs {
 				}
 			} else if out.err == nil && after != remote {
 				o.Violate("fast-forward-not-exact/"+class, "fast-forward merge: %s is at %x, the other commit is %x", name, after, remote)
+			}
+		case pl.Relation == "remote-behind" || pl.Relation == "equal":
+			// the branch already contains the other commit: nothing may move (certainly not backwards)
+			o.Ev("already_ahead_merges", 1)
+			if after != before && !isAnc(before, after) {
+				o.Violate("branch-moved-backwards/"+class, "merging an ancestor moved %s from %x to %x, which does not descend from it", name, before, after)
 			}
 		case pl.Relation == "diverged":
 			if p.FF == "ff-only" {
@@ -256,6 +274,14 @@ func init() {
 		Gen: func(tier string, seed int64) []fw.Case {
 			l := fw.NewCaseList("C10", tier, seed)
 			rng := l.Rng()
+			// fixed: merging an ancestor into a branch that is ahead (every merge mode), and a fetch with mixed '+' refspecs
+			for i, ff := range []string{"", "no-ff", "ff-only"} {
+				l.Add("merge", netParams{Op: "merge", N: 8, BaseRows: 4, Branches: 1, Rel: "remote-behind", FF: ff}, int64(1001+i))
+				l.Add("merge", netParams{Op: "merge", N: 8, BaseRows: 4, Branches: 1, Rel: "remote-ahead", FF: ff}, int64(1011+i))
+			}
+			for i := 0; i < 6; i++ {
+				l.Add("fetch", netParams{Op: "fetch", N: 9, BaseRows: 4, Branches: 4, Tags: true, Force: "mixed"}, int64(1021+i))
+			}
 			for i := 0; i < l.N(150, 2000); i++ {
 				p := netParams{N: 4 + rng.Intn(9), BaseRows: 4, Branches: 1 + rng.Intn(4), Tags: rng.Intn(2) == 0}
 				switch rng.Intn(10) {
@@ -270,9 +296,16 @@ func init() {
 					p.FF = []string{"", "", "no-ff", "ff-only"}[rng.Intn(4)]
 					p.Rel = []string{"remote-ahead", "remote-ahead", "diverged", "diverged", "equal", "new", "remote-behind"}[rng.Intn(7)]
 				}
-				p.Force = []string{"", "", "", "global", "refspec"}[rng.Intn(5)]
+				p.Force = []string{"", "", "", "global", "refspec", "mixed", "mixed"}[rng.Intn(7)]
 				if p.Op == "pull" {
 					p.Force = ""
+					if rng.Intn(2) == 0 {
+						p.Op = "merge"
+						p.Rel = []string{"remote-ahead", "remote-behind", "remote-behind", "diverged", "equal"}[rng.Intn(5)]
+						if p.N < 6 {
+							p.N = 6 + rng.Intn(6)
+						}
+					}
 				}
 				l.Add(p.Op, p, 0)
 			}
